@@ -67,6 +67,18 @@ def gen_case(seed):
         among = [c[1] for c in comps if safe(c)]
         if among:
             killer['kill'] = {'at': r.rint(0, 4), 'pick': r.below(4), 'among': among}
+    # a flow-less deriver may delete compartments as well - also one that holds derivers
+    # declared before it (own stream: the cases of earlier seeds keep their shape)
+    rk = Rng(derive(seed, 'deriver_kill'))
+    root_ders = [s for s in ders if len(s['path']) == 1]
+    if comps and root_ders and not any(s.get('kill') for s in allsteps) and rk.chance(40):
+        def safe_flow(comp):
+            inside = [s['name'] for s in allsteps if tuple(s['path'][:2]) == comp]
+            return not any(tuple(s['path'][:2]) != comp and s['flow'] is not None
+                           and any(x in inside for x in s['reads']) for s in allsteps)
+        among = [c[1] for c in comps if safe_flow(c)]
+        if among:
+            rk.pick(root_ders)['kill'] = {'at': rk.rint(0, 4), 'pick': rk.below(4), 'among': among}
     if roots and r.chance(30):
         g = r.pick(roots)
         if not g.get('kill'):
